@@ -137,6 +137,41 @@ Theorem C11_foreign_or_unknown_attr_dropped :
 Proof. exact keep_attr_false. Qed.
 Print Assumptions C11_foreign_or_unknown_attr_dropped.
 
+(* The XML attributes svgtree treats specially - `style`, `id` (link map) and `class` (CSS) - are looked up without a
+   namespace (table cut from parse.rs): a foreign-namespace attribute with such a local name is never found. *)
+Theorem C11_special_attrs_ignore_foreign :
+  forall p, In p special_attr_lookups -> lookup_finds (snd p) ANS_Foreign = false.
+Proof. exact special_attrs_ignore_foreign. Qed.
+Print Assumptions C11_special_attrs_ignore_foreign.
+
+Theorem C11_special_attrs_complete : map fst special_attr_lookups = [SA_Style; SA_Id; SA_Class].
+Proof. exact special_attrs_complete. Qed.
+Print Assumptions C11_special_attrs_complete.
+
+(* Positional selectors (`:first-child`, `+`) look at the ELEMENT siblings only (css_facts: XmlNode delegates to roxmltree's
+   prev_sibling_element / parent_element): comments, processing instructions and text inserted anywhere among the
+   children change nothing they can see.  (Inserted elements legitimately do.) *)
+Theorem C11_sibling_elements_stable : forall l1 junk l2,
+  all_non_element junk = true -> sibling_elements (xapp l1 (xapp junk l2)) = sibling_elements (xapp l1 l2).
+Proof. exact sibling_elements_stable. Qed.
+Print Assumptions C11_sibling_elements_stable.
+
+Theorem C11_css_facts_lock :
+  css_facts = [CF_ParentElement; CF_PrevSiblingElement; CF_FirstChildViaPrevSibling; CF_AttrMatchNoNamespace].
+Proof. exact css_facts_lock. Qed.
+Print Assumptions C11_css_facts_lock.
+
+(* Style sheets: resolve_css collects `style` elements by (SVG_NS, "style") (as fixed by 7457fef; table cut from parse.rs):
+   an element named `style` in a foreign namespace, or in no namespace, is not a style sheet; an SVG one is. *)
+Theorem C11_style_element_ignores_foreign :
+  lookup_finds style_element_lookup ANS_Foreign = false /\ lookup_finds style_element_lookup ANS_None = false.
+Proof. exact style_element_ignores_foreign. Qed.
+Print Assumptions C11_style_element_ignores_foreign.
+
+Theorem C11_style_element_finds_svg : lookup_finds style_element_lookup ANS_Svg = true.
+Proof. exact style_element_finds_svg. Qed.
+Print Assumptions C11_style_element_finds_svg.
+
 (* KNOWN class singular_transform_kept: `has_valid_transform` (tiny-skia Transform::is_valid) tests the scale
    factors, not the determinant: a non-invertible matrix such as matrix(1 2 2 4 300 300) passes, the element
    stays in the tree (and in the bounding boxes) although SVG says it is not rendered. *)
